@@ -54,6 +54,11 @@ def setup(ctx, w, M, id_w, seq_w, K=0, modes=(ACK, UNACK), cktypes=CKTYPES, limi
             sysm.mode = mode = pm
         if pc is not None:
             sysm.closure = closure = pc
+        if ctx.choice("with_options", 2):
+            # every kind of Metadata option TLV (filestore request, fault-handler override, flow label, message)
+            from vf.harness.c08 import put_options
+            sysm.put_kwargs = put_options()
+            ctx.covered("put_with_options")
     cfg = dict(mode=mode, closure=closure, ck=ck, crc=crc, imm=imm, shape=shape, S=S, seg=seg, P=P)
     return sysm, cfg
 
@@ -159,7 +164,8 @@ def plan(tier):
     specs.append(Spec("fault-free/per-round-pacing/M=1/w2.2", "vf.harness.c02:harness",
                       {"M": 1, "id_w": 2, "seq_w": 2, "pace": "round"}, twin_share=0.02))
     specs.append(Spec("fault-free/request-overrides/M=1/w2.2", "vf.harness.c02:harness",
-                      {"M": 1, "id_w": 2, "seq_w": 2, "pace": "overrides"}, twin_share=0.02))
+                      {"M": 1, "id_w": 2, "seq_w": 2, "pace": "overrides"}, twin_share=0.02,
+                      obligations=["put_with_options"]))
     specs.append(Spec("metadata-only/w2.2", "vf.harness.c02:h_metadata_only", {"id_w": 2, "seq_w": 2}, twin_share=1.0))
     return specs
 
